@@ -159,7 +159,7 @@ func formatFromStdin(cmd *cobra.Command) error {
 
 	// In check mode, compare original and formatted
 	if formatCheck {
-		if string(content) != formattedSQL {
+		if strings.TrimRight(string(content), "\n") != strings.TrimRight(formattedSQL, "\n") {
 			fmt.Fprintf(cmd.ErrOrStderr(), "stdin needs formatting\n")
 			os.Exit(1)
 		}
